@@ -1,10 +1,21 @@
 """C20 Exhausted arena memory is handled gracefully.
 
-Fault dimension: the arena size in bytes.  For every scenario model (contact-rich, constraint-rich, island-rich; cone x
-island x solver x jacobian lattice) the fault-free memory need N = maxuse_arena is measured, then EVERY arena size from 0
-up to beyond N (until the run is fault-free again) is executed: 2 x mj_step (+1 further step), in the sanitizer build
-(ASan + UBSan + MuJoCo's own arena poisoning) and in the production-layout build (signals caught in-process, canary
-behind the arena).  Oracle per size: no sanitizer report / signal; an incomplete contact / constraint set is announced by
+Two fault dimensions.  (1) The arena size in bytes.  For every scenario model (contact-rich, constraint-rich,
+island-rich; cone x island x solver x jacobian lattice) the fault-free memory need N = maxuse_arena is measured, then
+EVERY arena size from 0 up to beyond N (until the run is fault-free again) is executed: 2 x mj_step (+1 further step),
+in the sanitizer build (ASan + UBSan + MuJoCo's own arena poisoning) and in the production-layout build (signals
+caught in-process, canary behind the arena).  (2) The stage boundary at which the memory runs out.  With one fixed
+size, an allocation can only be seen to fail at sizes at which the step gets that far: the transient stack peak of an
+earlier stage (collision scratch, Jacobian scratch of the instantiate functions, ...) hides the failure window of
+every later allocation that needs less than that peak (on small models: the dual arrays Y / AR of mj_projectConstraint,
+the island arrays).  MuJoCo calls the user timer callback mjcb_time at its stage boundaries; at each such call k of the
+first step that happens with an empty stack (the arena then holds finished arrays only), the end of the arena is moved
+to s for EVERY s from parena_k (what is allocated at the call) to min(q_k, M_k) + 64, where q_k is the measured peak of
+stack + arena use from call k to the next such call and M_k the measured peak of everything before call k: the step
+runs with ample memory up to call k and with narena = s from there on, as in a run with narena = s whose earlier
+stages fitted.  Sizes s >= M_k are not repeated: there the earlier stages do fit and (k, s) is the plain run with
+narena = s.
+Oracle per fault point: no sanitizer report / signal; an incomplete contact / constraint set is announced by
 CONTACTFULL / CNSTRFULL or by a caught mju_error of the out-of-memory family; afterwards the sizes describe arrays that
 exist (native/drivers/c20_arena.cc: check_arena) and the contacts are a sub-list of the ample-memory contacts; without a
 warning the state is bit-identical to the ample-memory run.
@@ -24,14 +35,22 @@ LEVEL = "fault_enumeration"
 META = dict(
     category=LEVEL,
     technique="exhaustive enumeration of the arena size (every multiple of 4 bytes; every byte on the small models in "
-              "thorough) x scenario lattice, ASan/UBSan build + production build, differential against an ample-memory run",
+              "thorough), from the start of the step and from every stage boundary (timer callback with an empty stack) of "
+              "the first step, x scenario lattice, ASan/UBSan build + production build, differential against an "
+              "ample-memory run",
     text="Each allocation site (pair buffer, contacts, efc arrays, island arrays, Y/AR, every mj_stackAlloc) fails only for "
-         "a particular window of memory sizes, so every size from 0 to the fault-free need is executed; the oracle is the "
+         "a particular window of memory sizes, so every size from 0 to the fault-free need is executed; a window that is "
+         "hidden behind the larger transient need of an earlier stage is reached by letting the memory run out at the "
+         "stage boundary instead (every boundary x every size between what is allocated there and the peak of the "
+         "following segment); the oracle is the "
          "sanitizer plus structural invariants of mjData plus a bit-exact comparison with the same step under ample "
          "memory.  Fault enumeration is the right level: the fault space (arena size) is finite and is covered completely.",
     note="No thread pool (the exception-throwing error handler cannot cross threads); libccd path inert; models are the "
          "stated scenario lattice; in-place shrinking of d->narena is cross-checked against freshly allocated mjData every "
-         "251 bytes; inside a crash window caused by one defect the ASan run probes every k-th size (reported, "
+         "251 bytes; a staged fault point (memory ample up to a stage boundary) is a state of a run with that narena on a "
+         "model whose earlier stages need less scratch memory, not necessarily of this model: a violation found only there "
+         "is reported with the boundary in its replay record; boundaries are the timer-callback calls only (mj_makeConstraint "
+         "and mj_island share a segment); inside a crash window caused by one defect the ASan run probes every k-th size (reported, "
          "exhaustive=false then) while the production-layout run still executes every size.",
     design_ref="DESIGN.md §3 C20")
 
@@ -78,48 +97,91 @@ class _DedupPart(core.Part):
         core.Part.violation(self, key, what, replay)
 
 
+STAGED_BASE = 1 << 40   # driver: point ids of staged fault points start here, their outcome classes start with '@'
+
+
+def _stage_table(info):
+    """driver lines 'G <call> <first point> <first size> <count> <parena> <peak> <peak before>' -> list of dicts;
+    'S <total> <lo> <hi> <timer calls per step>' -> summary."""
+    tab, summ = [], None
+    for line in info:
+        f = line.split()
+        if f and f[0] == "G":
+            tab.append(dict(tick=int(f[1]), off=int(f[2]), base=int(f[3]), n=int(f[4]), parena=int(f[5]), peak=int(f[6]),
+                            before=int(f[7])))
+        elif f and f[0] == "S":
+            summ = dict(total=int(f[1]), lo=int(f[2]), hi=int(f[3]), ncalls=int(f[4]))
+    return tab, summ
+
+
 def _job(job):
-    """one driver process: shard `shard` of `nshards` of the automatically determined range [0, top) of one scenario."""
+    """one driver process: shard `shard` of `nshards` of one scenario: the automatically determined range [0, top) of
+    arena sizes (memory short from the start), then the same shard of the staged fault points (stage boundary, size)."""
     variant, exe, xmlpath, name, shard, nshards, stride, cstride, nstep = job
     part = _DedupPart()
     objs = rx.objs_for(variant, exe)
-    res = rx.run([exe, xmlpath, "auto", shard, nshards, stride, nstep, 251, cstride])
+    res = rx.run([exe, xmlpath, "both", shard, nshards, stride, nstep, 251, cstride])
     if res.rc != 0:
         raise RuntimeError("driver failed rc=%d: %s" % (res.rc, res.stderr))
+    tab, summ = _stage_table(res.info)
+
+    def where(pt):
+        """point id -> (replay fields, text)."""
+        if pt < STAGED_BASE:
+            return dict(narena=pt), "narena=%d" % pt
+        idx = pt - STAGED_BASE
+        for st in tab:
+            if st["off"] <= idx < st["off"] + st["n"]:
+                na = st["base"] + (idx - st["off"]) * stride
+                return dict(narena=na, tick=st["tick"]), "narena=%d from timer call %d of step 1 on" % (na, st["tick"])
+        raise RuntimeError("staged point %d outside the table" % idx)
+
     if shard == 0 and res.tline and variant == "asan":
         part.add("bytes_swept[%s]" % variant, int(res.tline[1]))
         part["extra"]["need %s/%s" % (variant, name)] = "maxuse_arena=%s sweep 0..%s" % (res.tline[0], res.tline[1])
-    npts = 0
+    if shard == 0 and summ:
+        part.add("stage_boundaries[%s]" % variant, len(tab))
+        if variant == "asan":
+            part["extra"]["stages %s/%s" % (variant, name)] = (
+                "%d timer calls per step; call: sizes swept (parena at the call .. min(peak of the segment, peak before the "
+                "call) + 64): " % summ["ncalls"]
+                + ", ".join("%d: %d..%d" % (st["tick"], st["base"], st["base"] + (st["n"] - 1) * stride) for st in tab if st["n"]))
+    npts = nstaged = 0
     for cls, n in res.hist.items():
         if cls.startswith("(fresh"):
             part.add("fresh_mjdata_crosschecks", n)
-            continue
-        npts += n
-        part.add("outcome[%s] %s" % (variant, cls), n)
-    part["evaluations"] += npts + len(res.crashes)
+        elif cls.startswith("@"):
+            nstaged += n
+            part.add("outcome[%s staged] %s" % (variant, cls[1:]), n)
+        else:
+            npts += n
+            part.add("outcome[%s] %s" % (variant, cls), n)
+    ncrash_staged = sum(1 for pt, _ in res.crashes if pt >= STAGED_BASE)
+    part["evaluations"] += npts + nstaged + len(res.crashes)
     part["nontrivial_count"] += res.nontrivial + len(res.crashes)
-    part.add("points[%s]" % variant, npts + len(res.crashes))
+    part.add("points[%s]" % variant, npts + len(res.crashes) - ncrash_staged)
+    part.add("points[%s staged]" % variant, nstaged + ncrash_staged)
     if res.skipped:
         part.add("skipped_inside_crash_window[%s]" % variant, res.skipped)
         part["capped"] = True
     for cls in sorted(res.first, key=lambda c: res.first[c]):
-        if not cls.startswith("(") and (cls.startswith("W[") or shard == 0) and len(part["samples"]) < 2:
-            part["samples"].append({"scenario": name, "variant": variant, "narena": res.first[cls], "outcome": cls})
+        if not cls.startswith("(") and (cls.startswith(("W[", "@W[")) or shard == 0) and len(part["samples"]) < 2:
+            part["samples"].append(dict(where(res.first[cls])[0], scenario=name, variant=variant, outcome=cls.lstrip("@")))
     rep = dict(scenario=name, variant=variant, nstep=nstep, xml=open(xmlpath).read())
     for f, n, l, key, what in res.viol:
         ck = _canon_violation(key, what, objs)
-        part.violation(ck, "%s [%s] %s: %s (%d sizes in %d..%d of this shard)" % (name, variant, key, what, n, f, l),
-                       dict(rep, narena=f))
+        part.violation(ck, "%s [%s] %s: %s (%d fault points, %s .. %s, in this shard)" % (
+            name, variant, key, what, n, where(f)[1], where(l)[1]), dict(rep, **where(f)[0]))
         part.add("violating_points", n)
     seen = set()
     for pt, rest in res.crashes:
         ck, kind, fn = _canon_crash(rest, objs)
-        part.add("crash_points[%s]" % variant, 1)
+        part.add("crash_points[%s%s]" % (variant, " staged" if pt >= STAGED_BASE else ""), 1)
         if ck in seen:
             continue
         seen.add(ck)
-        part.violation(ck, "%s [%s] narena=%d: process died with %s in %s (%s)" % (name, variant, pt, kind, fn, rest[:300]),
-                       dict(rep, narena=pt))
+        part.violation(ck, "%s [%s] %s: process died with %s in %s (%s)" % (name, variant, where(pt)[1], kind, fn, rest[:300]),
+                       dict(rep, **where(pt)[0]))
     return part
 
 
@@ -145,7 +207,7 @@ def _measure(args):
     if res.returncode != 0 or not res.stdout.startswith("M "):
         raise RuntimeError("measure failed: %s %s" % (res.stdout, res.stderr[-500:]))
     f = res.stdout.split()
-    return dict(N=int(f[1]), ncon=int(f[2]), nefc=int(f[3]), nisland=int(f[4]))
+    return dict(N=int(f[1]), ncon=int(f[2]), nefc=int(f[3]), nisland=int(f[4]), staged_bytes=int(f[8]))
 
 
 def run(ctx):
@@ -174,7 +236,8 @@ def run(ctx):
         for (name, _), m in zip(scn, meas):
             stride = 1 if (ctx.thorough and m["N"] <= small) else 4
             cstride = 1 if v == "rel" else ctx.q(16, 4)
-            nshards = max(1, (m["N"] // stride) // ctx.q(3000, 6000))
+            # each job: shard sh of the plain sweep, then shard sh of the staged fault points (second fault dimension)
+            nshards = max(1, ((m["N"] + m["staged_bytes"]) // stride) // ctx.q(3000, 6000))
             for sh in range(nshards):
                 jobs.append((v, exes[v], paths[name], name, sh, nshards, stride, cstride, nstep))
     core.pmap(ctx, _chunk, jobs, nchunks=len(jobs))
@@ -184,7 +247,12 @@ def run(ctx):
         "multi-geom bodies) x cone{pyramidal,elliptic} x island{on,off} x (solver,jacobian) lattice; for each model and each "
         "build (asan, rel) every arena size 0..N+pad in steps of 4 bytes (1 byte for models needing <= %d bytes in thorough), "
         "N = measured maxuse_arena, pad grown (by the driver) until the last 64 sizes are fault-free; %d mj_step + 1 further step per size. "
-        "non-trivial = a size at which the fault manifested (CONTACTFULL/CNSTRFULL warning, caught mju_error, or crash)"
+        "Staged fault points (counted as points[... staged]): for every timer-callback call k of the first step that happens "
+        "with an empty stack (stage_boundaries, listed per scenario under 'stages ...'), memory is ample up to call k and "
+        "narena = s from there on, for every s (same byte steps) from parena at the call up to min(measured peak of stack + "
+        "arena until the next such call, measured peak of everything before the call) + 64; sizes at or above the earlier "
+        "peak are the plain sweep again (the earlier stages fit) and are not repeated. "
+        "non-trivial = a fault point at which the fault manifested (CONTACTFULL/CNSTRFULL warning, caught mju_error, or crash)"
         % (len(scn), small, nstep))
     ctx.assumptions = [
         "allocation trace depends on narena only through floor(narena/4): sizes and alignments of all arena allocations are "
@@ -192,6 +260,9 @@ def run(ctx):
         "shrinking d->narena in place inside a larger allocation (tail poisoned / canary-filled) is equivalent to a fresh "
         "mjData with m->narena = narena; cross-checked on every 251st size and at narena = 0",
         "mju_error is turned into a C++ exception by the harness log handler; after a caught error the mjData is reset",
+        "staged fault points: at a timer-callback call with pstack = pbase = 0 nothing above parena is in use, so moving the end "
+        "of the arena to s >= parena there gives the state of a run with narena = s whose earlier stages fitted; the calls "
+        "and the per-segment peaks are those of the recorded ample-memory first step (deterministic: same state, same model)",
         "no thread pool; libccd inert (DESIGN §1)",
     ]
     try:
@@ -210,8 +281,11 @@ def replay(ctx, path):
     with open(p, "w") as fh:
         fh.write(r["xml"])
     exe = build.ensure_exe("c20_arena", ["drivers/c20_arena.cc"], variant=r["variant"])
-    res = rx.subprocess.run([exe, p, str(r["narena"]), str(r["narena"] + 1), "1", "1", str(r.get("nstep", 2)), "0", "1"],
-                            capture_output=True, text=True, env=rx.env(True))
+    if r.get("tick") is not None:
+        cmd = [exe, p, "stagept", str(r["tick"]), str(r["narena"]), "1", str(r.get("nstep", 2)), "0", "1"]
+    else:
+        cmd = [exe, p, str(r["narena"]), str(r["narena"] + 1), "1", "1", str(r.get("nstep", 2)), "0", "1"]
+    res = rx.subprocess.run(cmd, capture_output=True, text=True, env=rx.env(True))
     print(res.stdout)
     print(res.stderr[-3000:])
     return 1 if ("CRASH" in res.stdout or "\nV " in "\n" + res.stdout) else 0
